@@ -2,6 +2,7 @@ import Driver.Proto
 import AdaVerif.Spec.Sets
 import AdaVerif.Model.Encode
 import Driver.UrlCmd
+import Driver.UspCmd
 /-
 Model driver: same line protocol as harness/ada_harness.cpp, answered by the Lean Model/Spec.
 -/
@@ -45,6 +46,8 @@ def step (a : List String) : String :=
   | ["spec.formenc", h] => hexs (Spec.percentEncodeForm (unhexs h))
   | "spec.parse" :: input :: base :: hints => cmdSpecParse input base hints
   | "spec.seq" :: input :: base :: rest => cmdSpecSeq input base rest
+  | "usp" :: init :: ops => cmdUsp init ops
+  | ["uspless", a, b] => cmdUspLess a b
   | _ => "bad-op"
 
 partial def loop (h : IO.FS.Stream) (out : IO.FS.Stream) : IO Unit := do
